@@ -86,6 +86,25 @@ func runC14(res *Result, rng *RNG, tier string, outDir string) {
 		}
 	}
 	// regression corpus (runs first): inputs of defects repaired in /repo
+	// negative integer literals (fix 37ab496)
+	for _, cw := range []struct {
+		text string
+		want int64
+	}{{`p(-1)`, -1}, {`p(-9223372036854775808)`, -9223372036854775808}, {`p( - 42 )`, -42}} {
+		got, err := parser.FromStringFact(cw.text)
+		rep := map[string]interface{}{"kind": "fact", "text": cw.text}
+		res.Count("corpus "+cw.text, true)
+		if err != nil {
+			res.Violate("valid-text-rejected:corpus-negative-integer", "a fact with a negative integer literal (any base-10 int64 is an integer of the documented grammar) is rejected: "+err.Error(), rep)
+			addCase("PFact", cw.text, nil, "PXErr")
+			continue
+		}
+		gp := predFromBiscuit(got.Predicate)
+		if len(gp.Terms) != 1 || gp.Terms[0].Kind() != KInt || gp.Terms[0].A.I != cw.want {
+			res.Violate("wrong-denotation:corpus-negative-integer", fmt.Sprintf("parsed %s, the text denotes p(%d)", gp, cw.want), rep)
+		}
+		addCase("PFact", cw.text, nil, "PXFact ("+gp.coq()+")")
+	}
 	for _, cw := range []struct{ key, text string }{
 		{"bang-string", `check if x($a), $a == "!"`},
 		{"bang-string-method-arg", `check if x($a), $a.contains("!")`},
